@@ -345,7 +345,30 @@ func ruleArgmins(r *Run, rule string, fns []*ssa.Function) int {
 					if pr.P.End != EndStop || pr.P.Blocks[len(pr.P.Blocks)-1] != loop.Header {
 						return "exit"
 					}
-					e1, e2 := pr.P.PhiEdge(M), pr.P.PhiEdge(I)
+					resolve := func(v ssa.Value) ssa.Value {
+						for i := 0; i < 6; i++ {
+							ph, ok := v.(*ssa.Phi)
+							if !ok || ph == M || ph == I || ph.Block() == loop.Header || (D != nil && v == D) {
+								return v
+							}
+							at := -1
+							for j, bb := range pr.P.Blocks {
+								if bb == ph.Block() {
+									at = j
+								}
+							}
+							if at < 0 {
+								return v
+							}
+							e := pr.P.PhiEdgeAt(ph, at)
+							if e == nil {
+								return v
+							}
+							v = e
+						}
+						return v
+					}
+					e1, e2 := resolve(pr.P.PhiEdge(M)), resolve(pr.P.PhiEdge(I))
 					switch {
 					case e1 == ssa.Value(M) && e2 == ssa.Value(I):
 						return "keep"
